@@ -77,6 +77,15 @@ CLAIMED = {
                      "thresholds on both sides of n x operator scale and states the relation each result must satisfy (L L^T, R^T R, R R^T, "
                      "R R^T A = I, Q^T Q = I and Q diag(w) Q^T = A, U S V^T); Lanczos-type results must equal the orthogonal compression of A "
                      "onto their own span; truncated pivoted Cholesky must under-approximate."),
+    "C07": dict(engine="E2-exact-linalg-replay", design="5/C07",
+                technique="TLA+ exact Jacobian of the denotation with respect to every leaf entry (LOGrad: five-point differences, exactness checked by TLC) for class x batch x nesting; replay back-propagates every public entry point through the real operator and compares with <dg/dA, dA/dtheta>",
+                text="spec/LOGrad.tla derives dA/d(theta_k) for every entry of every floating leaf tensor from the denotation alone (each entry of A is a polynomial of degree <= 4 in each "
+                     "leaf entry, so the five-point central difference is the exact derivative; TLC checks divisibility and the vanishing fifth difference); spec/MC_C07.tla enumerates 29 "
+                     "general and 18 positive-definite classes x batch x nesting depth. The replay compares, for matmul, transpose-matmul, to_dense, row sums, indexing, diagonal, solve "
+                     "(with left factor), inv_quad, logdet, inv_quad_logdet, cholesky, root / inverse-root decomposition, pivoted_cholesky and sqrt_inv_matmul, the gradient delivered to "
+                     "every leaf tensor and to the right-hand sides with the gradient of the same scalar computed on the dense matrix contracted with the exact Jacobian (along symmetric "
+                     "directions for functions of symmetric matrices), for memory_efficient on / off, max_cholesky_size {default, 0}, subsets of parameters and of right-hand sides "
+                     "requiring grad; _bilinear_derivative is compared position by position with representation()."),
     "C08": dict(engine="E4-loop-models-trace-validation", design="5/C08",
                 technique="TLA+ state machine of the CG loop control (LOCG) model-checked exhaustively by TLC; executions recorded from linear_cg (budget re-runs) validated by TLC against the property clauses of LOCG (Trace_C08)",
                 text="(1) spec/LOCG.tla models the control of linear_cg (limits, mandatory iterations, tridiagonal budget, tolerance exit, warning, raise) over abstract "
